@@ -34,7 +34,10 @@ impl Container {
             .copied()
             .unwrap_or(self.src.len());
 
-        let mut src = &self.src[..end];
+        let mut src = self
+            .src
+            .get(..end)
+            .ok_or_else(|| io::Error::new(io::ErrorKind::InvalidData, "invalid landmark"))?;
 
         read_compression_header(&mut src)
     }
@@ -49,7 +52,13 @@ impl Container {
                 let start = landmarks[i];
                 i += 1;
                 let end = landmarks.get(i).copied().unwrap_or(self.src.len());
-                let mut src = &self.src[start..end];
+                let Some(mut src) = self.src.get(start..end) else {
+                    return Some(Err(io::Error::new(
+                        io::ErrorKind::InvalidData,
+                        "invalid landmark",
+                    )));
+                };
+
                 Some(read_slice(&mut src))
             } else {
                 None
